@@ -76,3 +76,265 @@ pub fn split_length_prefixed(payload: &[u8]) -> Result<&[u8], String> {
     }
     Ok(body)
 }
+
+// ---------------------------------------------------------------------------------------------
+// Prometheus text exposition format 0.0.4, strict.
+
+#[derive(Debug, Clone, PartialEq)]
+pub enum PromLine {
+    Help { name: String, doc: String },
+    Type { name: String, mtype: String },
+    Sample { name: String, labels: Vec<(String, String)>, value: f64, value_text: String },
+}
+
+fn is_name_start(c: char) -> bool {
+    c.is_ascii_alphabetic() || c == '_' || c == ':'
+}
+fn is_name_char(c: char) -> bool {
+    c.is_ascii_alphanumeric() || c == '_' || c == ':'
+}
+pub fn valid_metric_name(s: &str) -> bool {
+    let mut it = s.chars();
+    matches!(it.next(), Some(c) if is_name_start(c)) && it.all(is_name_char)
+}
+pub fn valid_label_name(s: &str) -> bool {
+    let mut it = s.chars();
+    matches!(it.next(), Some(c) if c.is_ascii_alphabetic() || c == '_') && it.all(|c| c.is_ascii_alphanumeric() || c == '_')
+}
+
+/// Float syntax accepted by Go's strconv.ParseFloat as used by the Prometheus parser.
+pub fn parse_go_float(s: &str) -> Option<f64> {
+    let lower = s.to_ascii_lowercase();
+    let (sign, body) = match lower.strip_prefix('-') {
+        Some(b) => (-1.0, b),
+        None => (1.0, lower.strip_prefix('+').unwrap_or(&lower)),
+    };
+    match body {
+        "inf" | "infinity" => return Some(sign * f64::INFINITY),
+        "nan" => return Some(f64::NAN),
+        _ => {}
+    }
+    if body.is_empty() || !body.chars().all(|c| c.is_ascii_digit() || c == '.' || c == 'e' || c == '-' || c == '+') {
+        return None;
+    }
+    s.parse::<f64>().ok()
+}
+
+fn parse_sample(line: &str) -> Result<PromLine, String> {
+    let chars: Vec<char> = line.chars().collect();
+    let mut i = 0;
+    while i < chars.len() && is_name_char(chars[i]) {
+        i += 1;
+    }
+    let name: String = chars[..i].iter().collect();
+    if !valid_metric_name(&name) {
+        return Err(format!("invalid metric name at start of sample line {:?}", line));
+    }
+    let mut labels = vec![];
+    if i < chars.len() && chars[i] == '{' {
+        i += 1;
+        loop {
+            if i < chars.len() && chars[i] == '}' {
+                i += 1;
+                break;
+            }
+            let st = i;
+            while i < chars.len() && (chars[i].is_ascii_alphanumeric() || chars[i] == '_') {
+                i += 1;
+            }
+            let lname: String = chars[st..i].iter().collect();
+            if !valid_label_name(&lname) {
+                return Err(format!("invalid label name {:?} in {:?}", lname, line));
+            }
+            if i >= chars.len() || chars[i] != '=' {
+                return Err(format!("expected '=' after label name {:?} in {:?}", lname, line));
+            }
+            i += 1;
+            if i >= chars.len() || chars[i] != '"' {
+                return Err(format!("expected '\"' to open the value of label {:?} in {:?}", lname, line));
+            }
+            i += 1;
+            let mut val = String::new();
+            loop {
+                if i >= chars.len() {
+                    return Err(format!("unterminated label value in {:?}", line));
+                }
+                match chars[i] {
+                    '"' => {
+                        i += 1;
+                        break;
+                    }
+                    '\\' => {
+                        i += 1;
+                        match chars.get(i) {
+                            Some('\\') => val.push('\\'),
+                            Some('"') => val.push('"'),
+                            Some('n') => val.push('\n'),
+                            other => return Err(format!("invalid escape sequence \\{:?} in label value of {:?}", other, line)),
+                        }
+                        i += 1;
+                    }
+                    c => {
+                        val.push(c);
+                        i += 1;
+                    }
+                }
+            }
+            labels.push((lname, val));
+            match chars.get(i) {
+                Some(',') => {
+                    i += 1;
+                }
+                Some('}') => {
+                    i += 1;
+                    break;
+                }
+                other => return Err(format!("expected ',' or '}}' after a label value, found {:?} in {:?}", other, line)),
+            }
+        }
+    }
+    if i >= chars.len() || chars[i] != ' ' {
+        return Err(format!("expected a space before the sample value in {:?}", line));
+    }
+    while i < chars.len() && chars[i] == ' ' {
+        i += 1;
+    }
+    let rest: String = chars[i..].iter().collect();
+    let mut parts = rest.split(' ').filter(|p| !p.is_empty());
+    let Some(vt) = parts.next() else { return Err(format!("missing sample value in {:?}", line)) };
+    let Some(value) = parse_go_float(vt) else { return Err(format!("sample value {:?} is not a float in {:?}", vt, line)) };
+    if let Some(ts) = parts.next() {
+        if ts.parse::<i64>().is_err() {
+            return Err(format!("trailing text {:?} after the sample value in {:?}", ts, line));
+        }
+    }
+    if parts.next().is_some() {
+        return Err(format!("too many fields in sample line {:?}", line));
+    }
+    // duplicate label names are invalid
+    for a in 0..labels.len() {
+        for b in a + 1..labels.len() {
+            if labels[a].0 == labels[b].0 {
+                return Err(format!("label name {:?} appears twice in {:?}", labels[a].0, line));
+            }
+        }
+    }
+    Ok(PromLine::Sample { name, labels, value, value_text: vt.to_string() })
+}
+
+/// Parses a whole exposition; every line must be HELP, TYPE, a sample or blank.
+pub fn parse_prometheus(text: &str) -> Result<Vec<PromLine>, String> {
+    let mut out = vec![];
+    if !text.is_empty() && !text.ends_with('\n') {
+        return Err("exposition does not end with a newline".into());
+    }
+    for line in text.split('\n') {
+        if line.is_empty() {
+            continue;
+        }
+        if line.contains('\r') && false {
+            return Err(format!("carriage return in line {:?}", line));
+        }
+        if let Some(rest) = line.strip_prefix("# HELP ") {
+            let (name, doc) = match rest.find(' ') {
+                Some(i) => (&rest[..i], &rest[i + 1..]),
+                None => (rest, ""),
+            };
+            if !valid_metric_name(name) {
+                return Err(format!("invalid metric name in HELP line {:?}", line));
+            }
+            // docstring escapes: \\ and \n only
+            let mut d = String::new();
+            let mut it = doc.chars();
+            while let Some(c) = it.next() {
+                if c == '\\' {
+                    match it.next() {
+                        Some('\\') => d.push('\\'),
+                        Some('n') => d.push('\n'),
+                        other => return Err(format!("invalid escape \\{:?} in HELP text of {:?}", other, line)),
+                    }
+                } else {
+                    d.push(c);
+                }
+            }
+            out.push(PromLine::Help { name: name.to_string(), doc: d });
+        } else if let Some(rest) = line.strip_prefix("# TYPE ") {
+            let mut p = rest.split(' ');
+            let name = p.next().unwrap_or("");
+            let mtype = p.next().unwrap_or("");
+            if p.next().is_some() || !valid_metric_name(name) || !["counter", "gauge", "histogram", "summary", "untyped"].contains(&mtype) {
+                return Err(format!("malformed TYPE line {:?}", line));
+            }
+            out.push(PromLine::Type { name: name.to_string(), mtype: mtype.to_string() });
+        } else if line.starts_with('#') {
+            return Err(format!("line is neither HELP, TYPE, sample nor blank: {:?}", line));
+        } else {
+            out.push(parse_sample(line)?);
+        }
+    }
+    Ok(out)
+}
+
+#[derive(Debug, Clone)]
+pub struct PromFamily {
+    pub name: String,
+    pub mtype: String,
+    pub help: Option<String>,
+    pub samples: Vec<(String, Vec<(String, String)>, f64, String)>,
+}
+
+/// Groups parsed lines into families and checks the structural rules: one TYPE per family, TYPE
+/// (and HELP) before the samples, every sample named family or family + a suffix its type allows,
+/// families not interleaved.
+pub fn prom_families(lines: &[PromLine]) -> Result<Vec<PromFamily>, String> {
+    let mut fams: Vec<PromFamily> = vec![];
+    let mut pending_help: Option<(String, String)> = None;
+    for l in lines {
+        match l {
+            PromLine::Help { name, doc } => {
+                if fams.iter().any(|f| &f.name == name) {
+                    return Err(format!("HELP for {:?} after the family was already started", name));
+                }
+                if pending_help.is_some() {
+                    return Err(format!("two HELP lines without a TYPE between them (second for {:?})", name));
+                }
+                pending_help = Some((name.clone(), doc.clone()));
+            }
+            PromLine::Type { name, mtype } => {
+                if fams.iter().any(|f| &f.name == name) {
+                    return Err(format!("second TYPE line for family {:?}", name));
+                }
+                let help = match pending_help.take() {
+                    Some((hn, d)) => {
+                        if &hn != name {
+                            return Err(format!("HELP for {:?} is followed by TYPE for {:?}", hn, name));
+                        }
+                        Some(d)
+                    }
+                    None => None,
+                };
+                fams.push(PromFamily { name: name.clone(), mtype: mtype.clone(), help, samples: vec![] });
+            }
+            PromLine::Sample { name, labels, value, value_text } => {
+                if pending_help.is_some() {
+                    return Err(format!("sample {:?} directly after a HELP line without TYPE", name));
+                }
+                let Some(f) = fams.last_mut() else { return Err(format!("sample {:?} before any TYPE line", name)) };
+                let suffixes: &[&str] = match f.mtype.as_str() {
+                    "histogram" => &["_bucket", "_sum", "_count"],
+                    "summary" => &["", "_sum", "_count"],
+                    _ => &[""],
+                };
+                let ok = suffixes.iter().any(|s| *name == format!("{}{}", f.name, s));
+                if !ok {
+                    return Err(format!("sample {:?} does not belong to the current family {:?} of type {} (allowed: family name plus one of {:?})", name, f.name, f.mtype, suffixes));
+                }
+                f.samples.push((name.clone(), labels.clone(), *value, value_text.clone()));
+            }
+        }
+    }
+    if let Some((n, _)) = pending_help {
+        return Err(format!("dangling HELP line for {:?}", n));
+    }
+    Ok(fams)
+}
